@@ -38,6 +38,9 @@ type JobD struct {
 	// job itself).
 	Ctx   int `json:"ctx,omitempty"`
 	CtxBy int `json:"ctx_by,omitempty"`
+	// ErrWrap: the error an OutErr job returns wraps context.DeadlineExceeded
+	// (1) or context.Canceled (2): a private timeout of the job's own making.
+	ErrWrap int `json:"err_wrap,omitempty"`
 }
 
 // Per-job context modes.
@@ -59,7 +62,7 @@ type SchedD struct {
 	CancelMode int    `json:"cancel_mode,omitempty"`
 	DelaySteps int    `json:"delay_steps,omitempty"`
 	Enqueuers  int    `json:"enqueuers,omitempty"`
-	Barrier    bool   `json:"barrier,omitempty"` // bodies of non-failing jobs meet at an N-party barrier
+	Barrier    bool   `json:"barrier,omitempty"`  // bodies of non-failing jobs meet at an N-party barrier
 	CtxKind    int    `json:"ctx_kind,omitempty"` // 1: the scheduler's context is a user-defined context.Context type
 }
 
@@ -261,6 +264,9 @@ func Generate(rng *rand.Rand, prop, tier string, gomaxprocs int) *Desc {
 			r := rng.Intn(1000)
 			if r < errRate {
 				jd.Out = OutErr
+				if w := rng.Intn(4); w < 3 {
+					jd.ErrWrap = w
+				}
 			} else if r < errRate+goexitRate {
 				jd.Out = OutGoexit
 			}
